@@ -970,6 +970,17 @@ Proof.
   intro b. unfold next_status. destruct (b_limit b); [destruct (_ >? _)|]; reflexivity.
 Qed.
 
+Lemma next_status_ok_phase : forall b, b_phase (fst (next_status b false)) = BSucceeded.
+Proof. reflexivity. Qed.
+
+Lemma count_ok_inv : forall (ok : Z -> Prop) g b, (forall L, ok L) -> br_inv ok g b -> count_ok b (g (b_pod b)) = true.
+Proof.
+  intros ok g b Hall [k [Hg [_ [_ [Hmin _]]]]]. unfold count_ok. rewrite Hg.
+  destruct (b_limit b) as [l|] eqn:El; [|reflexivity].
+  destruct (0 <=? l) eqn:E0; [|reflexivity]. apply Z.leb_le in E0.
+  apply Z.eqb_eq. apply Hmin; [reflexivity|exact E0|apply Hall].
+Qed.
+
 Lemma clause3_holds : forall ok changed s g p o, changed_ok ok changed -> (forall L, ok L) ->
   tracked_inv ok s g ->
   clause3 s p o (fst (reconcile (update_status_with changed) s p o))
@@ -977,45 +988,58 @@ Lemma clause3_holds : forall ok changed s g p o, changed_ok ok changed -> (foral
             (ghost_step s (Reconcile p o) g) = true.
 Proof.
   intros ok changed s g p o Hok Hall Hinv. unfold clause3.
-  destruct (attempt_fails s p o) eqn:Hf; [|reflexivity].
-  destruct (attempt_fails_br s p o Hf) as [b [Hb Hns]]. rewrite Hb.
+  destruct (find_br (brs s) p) as [b|] eqn:Hb; [|reflexivity].
   pose proof (inv_reconcile ok changed s g p o Hok Hinv) as [Hnd' Hinv'].
   destruct Hinv as [Hnd Hinv].
   pose proof Hb as Hb2. rewrite find_br_findk in Hb2. apply (findk_some b_pod) in Hb2.
   destruct Hb2 as [Hinb Hkey].
+  destruct (br_phase_eqb (b_phase b) BSucceeded) eqn:Ephase.
+  { (* already succeeded: nothing happens *)
+    assert (Hs : b_phase b = BSucceeded) by (destruct (b_phase b); simpl in Ephase; congruence).
+    destruct (reconcile_brs_noop (update_status_with changed) s p o
+                (or_intror (ex_intro _ b (conj Hb Hs)))) as [Hst Hf].
+    rewrite Hst in *. rewrite Hb, Hf, Hs. rewrite br_eqb_refl, andb_true_r.
+    pose proof (count_ok_inv ok _ b Hall (Hinv' b Hinb)) as Hc. rewrite Hkey in Hc. exact Hc. }
+  assert (Hns : b_phase b <> BSucceeded) by (intro H; rewrite H in Ephase; discriminate).
   destruct (Hinv b Hinb) as [k [Hg [Hk [Ha _]]]].
-  pose proof (reconcile_brs changed s p o b Hb Hns Ha) as Hbrs. rewrite Hf in Hbrs. cbv zeta in Hbrs.
-  set (nb := fst (next_status b true)) in *.
+  pose proof (reconcile_brs changed s p o b Hb Hns Ha) as Hbrs. cbv zeta in Hbrs.
+  set (err := attempt_fails s p o) in *.
+  set (nb := fst (next_status b err)) in *.
   assert (Hnbkey : b_pod nb = p) by (subst nb; rewrite next_status_key; exact Hkey).
   destruct Hok as [Hrefl [Hph Hatt]].
   assert (Hpost : exists b', find_br (brs (fst (reconcile (update_status_with changed) s p o))) p = Some b'
-                             /\ b_phase b' = BFailed).
+                             /\ b_phase b' = b_phase nb).
   { rewrite Hbrs. destruct (changed b nb) eqn:Ech.
-    - exists nb. split; [apply (find_br_replace _ _ b); assumption|]. subst nb. apply next_status_fail_phase.
-    - exists b. split; [exact Hb|]. rewrite <- (Hph b nb Ech). subst nb. apply next_status_fail_phase. }
+    - exists nb. split; [apply (find_br_replace _ _ b); assumption|reflexivity].
+    - exists b. split; [exact Hb|]. symmetry. apply (Hph b nb Ech). }
   destruct Hpost as [b' [Hb' Hphase']]. rewrite Hb'.
   pose proof Hb' as Hb3. rewrite find_br_findk in Hb3. apply (findk_some b_pod) in Hb3.
   destruct Hb3 as [Hinb' Hkey'].
-  destruct (Hinv' b' Hinb') as [k' [Hg' [Hk' [Ha' [Hmin' [_ Hfail']]]]]].
-  rewrite Hkey' in Hg'. rewrite Hg'.
+  pose proof (Hinv' b' Hinb') as Hbi'.
   apply andb_true_intro. split.
-  - apply andb_true_intro. split.
-    + destruct (b_limit b') as [l|] eqn:El; [|reflexivity].
-      destruct (0 <=? l) eqn:E0; [|reflexivity]. apply Z.leb_le in E0.
-      apply Z.eqb_eq. apply Hmin'; [reflexivity|exact E0|apply Hall].
+  { pose proof (count_ok_inv ok _ b' Hall Hbi') as Hc. rewrite Hkey' in Hc. exact Hc. }
+  destruct Hbi' as [k' [Hg' [Hk' [Ha' [Hmin' [_ Hfail']]]]]].
+  rewrite Hkey' in Hg'.
+  destruct err eqn:Herr.
+  - (* failing attempt *)
+    assert (Hf' : b_phase b' = BFailed) by (rewrite Hphase'; subst nb; apply next_status_fail_phase).
+    rewrite Hg'. apply andb_true_intro. split.
     + destruct (limit_reached b' k') eqn:Hr; [|reflexivity].
-      unfold spec_failed. rewrite Hphase'. unfold limit_reached in Hr.
+      unfold spec_failed. rewrite Hf'. unfold limit_reached in Hr.
       destruct (b_limit b') as [l|] eqn:El; [|reflexivity].
       apply Z.leb_le in Hr. apply Z.leb_le.
       destruct (Z.le_gt_cases 0 l) as [H0|Hneg]; [|lia].
       rewrite (Hmin' l eq_refl H0 (Hall l)). lia.
-  - destruct (spec_failed b) eqn:Hsf; [|reflexivity].
-    assert (Hq : reconcile (update_status_with changed) s p o = (s, RDone 0 false)).
-    { rewrite <- Hkey. apply failed_quiet; try assumption.
-      - rewrite Hkey. exact Hb.
-      - rewrite is_failed_spec. exact Hsf.
-      - rewrite Hkey. exact Hf. }
-    rewrite Hq in *. simpl in *. rewrite Hb in Hb'. inversion Hb'; subst b'. apply br_eqb_refl.
+    + destruct (spec_failed b) eqn:Hsf; [|reflexivity].
+      assert (Hq : reconcile (update_status_with changed) s p o = (s, RDone 0 false)).
+      { rewrite <- Hkey. apply failed_quiet; try assumption.
+        - rewrite Hkey. exact Hb.
+        - rewrite is_failed_spec. exact Hsf.
+        - rewrite Hkey. exact Herr. }
+      rewrite Hq in *. simpl in *. rewrite Hb in Hb'. inversion Hb'; subst b'. apply br_eqb_refl.
+  - (* the attempt did not fail: the request is marked succeeded *)
+    assert (Hs' : b_phase b' = BSucceeded) by (rewrite Hphase'; subst nb; apply next_status_ok_phase).
+    rewrite Hs'. destruct (b_phase b); try reflexivity. congruence.
 Qed.
 
 Lemma monitor_sound_gen : forall ok changed, changed_ok ok changed -> (forall L, ok L) ->
@@ -1026,8 +1050,8 @@ Proof.
   simpl. apply andb_true_intro. split.
   - unfold step_ok. simpl. destruct e; try reflexivity.
     + apply andb_true_intro. split; [apply clause1_holds|apply clause2_holds]; exact Hwf.
-    + apply clause3_holds; assumption.
-  - apply IH; [apply step_wf; exact Hwf|apply inv_step; assumption].
+    + apply (clause3_holds ok); assumption.
+  - apply IH; [apply step_wf; exact Hwf|apply (inv_step ok); assumption].
 Qed.
 
 (** every history of the model with the repaired rule is accepted by the monitor
